@@ -3,7 +3,7 @@
    (instance QS) and what the property theorems quantify over (instance RS). *)
 From Coq Require Import ZArith List Bool.
 Import ListNotations.
-From Manif Require Import Scalar Mat Consts Group SO2 SE2 SO3 SE3 SE23 SGal3 Rn Generic.
+From Manif Require Import Scalar Mat Consts Group SO2 SE2 SO3 SE3 SE23 SGal3 Rn Generic Api.
 
 Inductive gid : Type :=
 | GSO2 | GSE2 | GSO3 | GSE3 | GSE23 | GSGal3 | GRn (n : nat).
@@ -12,7 +12,8 @@ Inductive opcode : Type :=
 | OInverse | OLog | OCompose | OAct | OAdj | ORplus | OLplus | OPlus | ORminus | OLminus | OMinus
 | OBetween | OTransform | ORotation | OTranslation | OIsApprox | OIdentity | ONormalize | OAssertOk
 | OExp | OHat | ORjac | OLjac | ORjacinv | OLjacinv | OSmallAdj | OGenerator | OVee | OBracket
-| OInner | OInnerWeights | OWeightedNorm | OSqWeightedNorm | OTPlus | OTMinus | OTIsApprox | ORandom.
+| OInner | OInnerWeights | OWeightedNorm | OSqWeightedNorm | OTPlus | OTMinus | OTIsApprox | ORandom
+| OAliasGT | OAliasGG | OAliasG | OAliasT | OAliasGV | OAliasId.
 
 Section Run.
 Variable F : Sc.
@@ -90,6 +91,14 @@ Definition run_op (g : gid) (op : opcode) (mask : list bool) (iarg : Z) (args : 
   | OTMinus => Ok (out2 (t_minus G a0 a1 m0 m1))
   | OTIsApprox => Ok [kbool (t_isApprox a0 a1 (vnth a2 0))]
   | ORandom => Ok [g_random G a0]
+  | OAliasGT => match alias_gt iarg with Some c => Ok (out2 (sem2 G c a0 a1 m0 m1)) | None => LogicError end
+  | OAliasGG => match alias_gg iarg with Some c => Ok (out2 (sem2 G c a0 a1 m0 m1)) | None => LogicError end
+  | OAliasG => match alias_g iarg with Some c => let '(v, J) := sem1 G c a0 m0 in Ok (out1 v J) | None => LogicError end
+  | OAliasT => match alias_t iarg with Some c => let '(v, J) := sem1 G c a0 m0 in Ok (out1 v J) | None => LogicError end
+  | OAliasGV => Ok (out2 (g_act G a0 a1,
+                      (if m0 then Some (g_act_Jm G a0 a1) else None),
+                      (if m1 then Some (g_act_Jv G a0 a1) else None)))
+  | OAliasId => Ok [g_identity G; t_zero G; t_zero G; t_zero G; t_zero G]
   end.
 End Run.
 Arguments run_op {F}. Arguments group_of {F}.
